@@ -5,7 +5,8 @@
 set -u
 prop="$1"; name="$2"; wt="$3"; demo="$4"; shift 4
 export GOFLAGS=-mod=mod GOPROXY=off GOSUMDB=off GOTOOLCHAIN=local
-out=/verif/seeded/$name
+here="$(cd "$(dirname "$0")/.." && pwd)"
+out=$here/seeded/$name
 mkdir -p "$out"
 cp "$demo"/patch.diff "$out"/patch.diff
 for f in "$demo"/*; do case "$f" in */fzf|*/fzf-orig|*/fzf-seeded|*.test) ;; *) [ -f "$f" ] && cp "$f" "$out"/ ;; esac; done
@@ -26,7 +27,7 @@ if [ -n "$gd" ]; then
   ( cd "$d" && patch -p1 --quiet < "$out/patch.diff" ); rm -f "$d/$pkgdir/zz_demo_test.go"
 fi
 echo "SEED: running ./check $prop against the changed tree"
-VERIF_REPO="$d" /verif/check "$prop" "$@" > "$out/check-output.txt" 2>&1
+VERIF_REPO="$d" "$here/check" "$prop" "$@" > "$out/check-output.txt" 2>&1
 rc=$?
 grep -E "VIOLATION|-> |INCONCLUSIVE" "$out/check-output.txt" | cut -c1-220
 { grep -v "rapid\] draw" "$out/check-output.txt" | cut -c1-400 | head -60; echo "[...]"; grep -E "^VIOLATION|^INCONCLUSIVE| -> (HELD|VIOLATION|INCONCLUSIVE)" "$out/check-output.txt" | cut -c1-300; } > "$out/check-output.short.txt"; mv "$out/check-output.short.txt" "$out/check-output.txt"
